@@ -7,6 +7,7 @@ import (
 	"math/big"
 	"math/rand"
 	"sort"
+	"strings"
 	"time"
 
 	sdk "github.com/cosmos/cosmos-sdk/types"
@@ -869,8 +870,26 @@ func (r *cdpRunner) englishBid(a *sim.Acct, d auctionsV2types.Auction) {
 	if amt.IsNegative() {
 		amt = sdk.ZeroInt()
 	}
-	r.tx("bid_english_surplus_v2", a, &auctionsV2types.MsgPlaceMarketBidRequest{AuctionId: d.AuctionId, Bidder: a.Addr.String(), Amount: sdk.NewCoin(d.DebtToken.Denom, amt)},
-		fmt.Sprintf("auction=%d amt=%s cur=%s", d.AuctionId, amt, cur))
+	denom := d.DebtToken.Denom
+	if r.rnd.Intn(8) == 0 {
+		// hostile: the same number of units of another coin the bidder holds (first bid and outbid alike)
+		for _, alt := range []string{"ucmdx", "uatom", "uusdc", "ucmst", "uharbor"} {
+			if alt != denom && alt != d.CollateralToken.Denom && r.last.bal(a.Name, alt).Cmp(amt.BigInt()) >= 0 {
+				denom = alt
+				break
+			}
+		}
+	}
+	cls := ""
+	if denom != d.DebtToken.Denom {
+		cls = " foreign-denom"
+		if len(d.BiddingIds) == 0 {
+			cls += " first-bid"
+		}
+		r.rec.Count("english_surplus_bids_in_a_foreign_denom"+strings.ReplaceAll(cls, " ", "_"), 1)
+	}
+	r.tx("bid_english_surplus_v2", a, &auctionsV2types.MsgPlaceMarketBidRequest{AuctionId: d.AuctionId, Bidder: a.Addr.String(), Amount: sdk.NewCoin(denom, amt)},
+		fmt.Sprintf("auction=%d amt=%s%s cur=%s%s", d.AuctionId, amt, denom, cur, cls))
 }
 
 // limitBidOp issues limit-bid deposit / withdraw / cancel messages; withdrawals carry attacker-chosen amount and denom.
